@@ -148,6 +148,23 @@ def gen(tier, rng, harness=None):
     for txt in ("0.1", "0.3", "1.7976931348623157e+308", "4.9406564584124654e-324", "2.2250738585072014e-308", "9007199254740993.0", "9007199254740995.0", "0.5000000000000000277555756156289135105907917022705078125",
                 "1.00000000000000011102230246251565404236316680908203125", "1.00000000000000011102230246251565404236316680908203124", "1.00000000000000011102230246251565404236316680908203126"):
         lines.append("!flt.decround double " + txt)
+    # the SUBNORMAL range: fewer significant bits than 53, so a literal rounded to 53 bits first and to the format afterwards is rounded twice;
+    # literals just below, at and just above the midpoint of two neighbouring subnormals, and random ones
+    from fractions import Fraction as _F
+    def _dec(fr, digits=30):
+        # a decimal spelling of the positive rational fr with `digits` significant digits (truncated: the literal itself is the input)
+        e = 0
+        while fr >= 10: fr /= 10; e += 1
+        while fr < 1: fr *= 10; e -= 1
+        m = int(fr * 10 ** (digits - 1))
+        sm = str(m)
+        return "%s.%se%+d" % (sm[0], sm[1:], e)
+    for k in [1, 2, 3, 4, 5, 6, 7, 1 << 20, (1 << 52) - 2, (1 << 52) - 1] + [rng.getrandbits(rng.randint(1, 52)) | 1 for _ in range(n // 6)]:
+        mid = (_F(2 * k + 1, 2)) * _F(1, 2 ** 1074)
+        for fr in (mid, mid * (1 + _F(1, 10 ** 20)), mid * (1 - _F(1, 10 ** 20)), _F(k) * _F(1, 2 ** 1074) * (1 + _F(rng.randint(1, 999), 4000))):
+            for sgn in ("", "-"):
+                lines.append("!flt.decround double " + sgn + _dec(fr))
+    lines.append("!flt.decround double 1.2351641146031164e-323")
     # exact decimals
     for _ in range(n):
         k = rng.randint(-(1 << 10), 1 << 10)
